@@ -76,7 +76,13 @@ def gen_base(rng, tier, index):
         case["body_raises"] = True          # the with-block is left through an exception
     if case.get("quota") and index % 3 == 1:
         case["float_quota"] = True          # max_chunks_per_worker given as 3.0 instead of 3
-    if case.get("quota") and index % 4 == 2:
+    if case["pool"] == "factory" and case.get("quota") and index % 16 == 14:
+        # workers handed out as shallow copies of one prototype (they share its begin_finished event): until_all_ready() is not
+        # asked for here (one shared event cannot speak for several workers), the life cycle of every worker is
+        case["worker_opts"] = {"prototype_copy": True}
+        case["ready_first"] = False
+        case["no_ready"] = True
+    elif case.get("quota") and index % 4 == 2:
         case["worker_opts"] = {"quota_after_init": True}      # the chunk limit set through the attribute after construction
     case["end_delay"] = rng.choice([0, 0.05, 0.15, 0.3])       # slow end(): an unjoined (replaced) worker is still in it
     case["begin_delay"] = rng.choice([0, 0, 0.05, 0.2])        # slow begin() in every second worker
@@ -87,6 +93,10 @@ def gen_base(rng, tier, index):
     if fault_kind == 4:
         for c in case["calls"]:
             c["ready_after"] = True
+    if case.get("no_ready"):
+        case["ready_first"], case["ready_during"] = False, False
+        for c in case["calls"]:
+            c.pop("ready_after", None)
     if fault_kind == 2:
         if case["pool"] == "factory" and case.get("quota") and rng.random() < 0.4:
             serial = case["workers"] + rng.randrange(2)     # a replacement worker
